@@ -148,6 +148,25 @@ impl Deserializable for Context {
         // read options
         let options = ProofOptions::read_from(source)?;
 
+        // enforce the size limits of `Context::new`; without them the LDE domain size (and the
+        // security level computed from it) overflows for trace lengths close to usize::MAX
+        let trace_length = trace_info.length();
+        if trace_length > u32::MAX as usize {
+            return Err(DeserializationError::InvalidValue(format!(
+                "trace length cannot be greater than {}, but was {}",
+                u32::MAX,
+                trace_length
+            )));
+        }
+        let lde_domain_size = trace_length * options.blowup_factor();
+        if lde_domain_size > u32::MAX as usize {
+            return Err(DeserializationError::InvalidValue(format!(
+                "LDE domain size cannot be greater than {}, but was {}",
+                u32::MAX,
+                lde_domain_size
+            )));
+        }
+
         Ok(Context { trace_info, field_modulus_bytes, options })
     }
 }
